@@ -164,6 +164,8 @@ def interpret(res, umap, crate):
                 if o.get('fn') and not fn:
                     fn = o['fn']
                 break
+        if label is None and kind == 'decreases' and where.get('loop_label'):
+            label = where['loop_label']     # `@@loop k <label>`: named termination obligation
         if label is None:
             base = {'overflow': 'nopanic.overflow', 'assert': 'nopanic.assert', 'decreases': 'term.loop',
                     'bounds': 'nopanic.bounds', 'divzero': 'nopanic.divzero', 'shift': 'nopanic.shift',
